@@ -87,7 +87,7 @@ def constraint(id_, eq, fn, m=None):
 
 
 def rand_instance(rng, n_vars=None, max_deg=2, n_cons=None, n_removed=None, with_deps=True,
-                  kinds=None, allow_unset=True, sense=None):
+                  kinds=None, allow_unset=True, sense=None, rich=False):
     """returns (instance tree, info) — info has ids, kinds, bounds, used, dep keys"""
     n_vars = n_vars if n_vars is not None else rng.randint(1, 6)
     pool = G.ids_pool(rng, n_vars, big=0.1)
@@ -155,7 +155,21 @@ def rand_instance(rng, n_vars=None, max_deg=2, n_cons=None, n_removed=None, with
             subst[i] = sv
         dvs.append(dv(i, kinds_[i], bounds[i], sv, meta(rng, "x")))
     s = sense if sense is not None else rng.choice([1, 2])
-    inst = [s, opt(objective), dvs, cons, removed, deps, [], [], []]
+    params, hints, desc = [], [], []
+    if rich:
+        # the optional parts every transformation must carry over: recorded parameters, constraint hints, description
+        if rng.random() < 0.4:
+            params = [[[900 + k, f64(float(rng.randint(-3, 3)) / 2)] for k in range(rng.randint(0, 2))]]
+        if rng.random() < 0.5 and cids and pool:
+            onehot = [[rng.choice(cids), sorted(rng.sample(list(pool), rng.randint(1, min(3, len(pool)))))]
+                      for _ in range(rng.randint(0, 2))]
+            sos1 = [[rng.choice(cids), sorted(set(rng.choice(cids) for _ in range(rng.randint(0, 2)))),
+                     sorted(rng.sample(list(pool), rng.randint(1, min(2, len(pool)))))] for _ in range(rng.randint(0, 1))]
+            hints = [[onehot, sos1]]
+        if rng.random() < 0.5:
+            desc = [[opt(rng.choice([None, "", "prob-%d" % rng.randint(0, 9)])), opt(rng.choice([None, "", "a description"])),
+                     [rng.choice(["ann", "bob", ""]) for _ in range(rng.randint(0, 2))], opt(rng.choice([None, "tool"]))]]
+    inst = [s, opt(objective), dvs, cons, removed, deps, params, hints, desc]
     used = set()
     for f in [objective] + [c[2][0] if c[2] else None for c in cons] + \
             [r[0][0][2][0] if r[0][0][2] else None for r in removed]:
